@@ -488,5 +488,6 @@ func runOnce(s *Scenario, c Component, n int, prefix []int, cut int) []vsched.Ch
 		fmt.Fprintf(out, "V %s\n", strings.ReplaceAll(v, "\n", " | "))
 	}
 	fmt.Fprintln(out, "END")
+	vsched.Reap()
 	return tr
 }
